@@ -296,7 +296,7 @@ def _run(ctx):
         comb = rnd.choice(list(SP.nonempty_subsets(fs)))
         cases.append((SP.to_json(t), comb, lens))
     rnd.shuffle(cases)
-    for part in H.pmap(_w_e2e, H.chunks(cases, H.NPROCS * 3), nprocs=ctx.pick(6, H.NPROCS), chunksize=1):
+    for part in H.pmap(_w_e2e, H.chunks(cases, H.NPROCS * 3), serial=not ctx.thorough, chunksize=1):
         for tj, comb, lens, f in part:
             s = SP.from_json(tj)
             fs = SP.fields_of(s)
